@@ -588,3 +588,99 @@ def respell_relayout(rng, data):
             out.append(spell(rng, full, rng.randrange(5)) + b": " + v)
             i += 1
     return b"\r\n".join(out) + data[sep:]
+
+
+def mutate(rng, data):
+    """byte-level damage of a valid message"""
+    b = bytearray(data)
+    k = rng.randrange(8)
+    if k == 0 and b:
+        return bytes(b[:rng.randrange(len(b))])                           # truncation
+    if k == 1 and b:
+        for _ in range(rng.randrange(1, 6)):
+            b[rng.randrange(len(b))] = rng.randrange(256)                 # flips
+        return bytes(b)
+    if k == 2 and b:
+        i = rng.randrange(len(b))
+        return bytes(b[:i] + bytes(rng.randrange(256) for _ in range(rng.randrange(1, 40))) + b[i:])
+    if k == 3 and b:
+        i = rng.randrange(len(b)); j = min(len(b), i + rng.randrange(1, 60))
+        return bytes(b[:i] + b[j:])                                        # deletion
+    if k == 4:
+        return bytes(b).replace(b"\r\n", b"\n", rng.randrange(1, 4))
+    if k == 5:
+        return bytes(b).replace(b":", rng.choice([b"", b"::", b" :"]), rng.randrange(1, 3))
+    if k == 6:
+        return bytes(rng.randrange(256) for _ in range(rng.randrange(0, 200)))
+    return bytes(b) + bytes(b)[: rng.randrange(0, 80)]
+
+
+HOSTILE_CL = [b"-1", b"-0", b"+5", b"99999999999999999999", b"4611686018427387904", b"9223372036854775807", b"2147483648",
+              b"100000", b"1e3", b"", b" 3", b"0x10", b"3 3"]
+HOSTILE_VIA = [b"SIP/2.0/TCP [;branch=z9hG4bK-h", b"SIP/2.0/UDP [;branch=z9hG4bK-h", b"SIP/2.0/UDP [];branch=z9hG4bK-h",
+               b"SIP/2.0/UDP ;branch=x", b"SIP/2.0/UDP", b"SIP/2.0 h", b"SIP/2.0/UDP h:notaport", b"SIP/2.0/UDP [::1]:5060;branch=x",
+               b"SIP/2.0/UDP " + b"h" * 5000 + b";branch=z9hG4bK-h", b"SIP/2.0/UDP h:99999999999999999999", b"SIP/2.0/UDP h:-1;branch=z",
+               b"SIP/2.0/UDP h;received=[;rport=1;branch=z9hG4bK-h", b"SIP/2.0/TCP h;received=[;branch=z9hG4bK-h",
+               b",,,", b"SIP/2.0/UDP h;" + b";".join(b"p%d=%d" % (i, i) for i in range(3000))]
+
+
+def hostile_history(rng, block, opts=None):
+    """C08: valid traffic interleaved with damaged and hostile messages on UDP and TCP; every
+    scenario ends with a plain request that must still be served"""
+    o = dict(opts or {})
+    o.setdefault("tcp", True)
+    o.setdefault("backends", rng.randrange(1, 3))
+    o.setdefault("names", b"svc.example.com")
+    o.setdefault("two_listeners", False)
+    f = Flows(rng, block, o)
+    s, r = f.s, rng
+    conn = None
+    nconn = 0
+    for _ in range(r.randrange(3, 9)):
+        ua = r.choice(f.uas)
+        a, b = f.uri_pair()
+        kind = r.randrange(6)
+        vias = f.via_stack(ua)
+        hs = [(b"Via", v) for v in vias] + [(b"From", f.ft(a, b"h1", True)), (b"To", f.ft(b, r.choice([None, b"h2"]), True)),
+                                              (b"Call-ID", b"hc-%d" % f.nid()), (b"CSeq", b"1 INVITE")]
+        start = r.choice([b"INVITE " + f.service_uri(True) + b" SIP/2.0", b"SIP/2.0 200 OK", b"INVITE sip:x@static.example.org SIP/2.0"])
+        cl = True
+        body = body_bytes(r)
+        if kind == 0:
+            hs[0] = (b"Via", r.choice(HOSTILE_VIA))
+        elif kind == 1:
+            cl = False
+            hs.append((r.choice([b"Content-Length", b"l"]), r.choice(HOSTILE_CL)))
+        elif kind == 2:
+            drop = r.randrange(len(hs))
+            hs = hs[:drop] + hs[drop + 1:]                                 # a mandatory header is missing
+        elif kind == 3:
+            hs += [(b"X-%d" % i, b"v") for i in range(r.choice([100, 1000, 3000]))]
+        elif kind == 4:
+            i = r.randrange(1, len(hs))
+            hs[i] = (hs[i][0], r.choice([b"", b"<", b">", b"<sip:", b";;;", b"sip:", b"\"", b"<sip:a@[>;tag", b"0 ", b"x y z"]))
+        data = msg(start, hs, body, content_length=cl)
+        if kind == 5:
+            data = mutate(r, data)
+        if len(data) > 60000:
+            data = data[:60000]
+        over = False
+        if kind == 1:
+            try:
+                over = int(hs[-1][1]) > len(body)
+            except ValueError:
+                over = False
+        # a TCP reader WAITS for a body that is declared longer than what has arrived (that is not a stall of the
+        # proxy): over-declared lengths are sent over UDP only, where the datagram is discarded
+        if r.random() < 0.35 and not over and kind != 5:
+            if conn is None or r.random() < 0.3:
+                s.ev_accept(f.li, s.ip(22), 42000 + nconn)
+                conn = nconn
+                nconn += 1
+            # on TCP the chunk must not end inside a message the proxy would wait for: terminate with a line that cannot parse
+            s.ev_data(conn, data + b"\r\n\r\nGARBAGE\r\n\r\n")
+            conn = None                                                     # the proxy closes a connection carrying garbage
+        else:
+            s.ev_udp(f.li, ua, data)
+    f.to_service(method=b"OPTIONS")                                         # the proxy keeps serving
+    return f
